@@ -830,19 +830,24 @@ FAMILIES[("gz", "should_gzip")] = ("stream_witness", fam_accept_encoding)
 import re as _re
 
 
-def rfc_resolve(value, L):
-    """Range header value (str) -> None if not a grammatical bytes range set, else list of (start, end_exclusive)."""
-    if not value.startswith("bytes="):
-        return None
+def rfc_resolve2(value, L):
+    """Range header value (str) -> (ranges, may_ignore).  ranges: None if the value is outside the byte-range grammar of RFC 7233 2.1
+    (list rule of RFC 7230 7: `element *( OWS "," OWS element )`, positions `1*DIGIT` of ANY length), else the list of
+    (start, end_exclusive) C03 prescribes.  may_ignore: the value is only grammatical under a tolerant reading (unit in another
+    case, OWS before the first / after the last element), so a complete 200 is acceptable as well."""
+    if value[:6].lower() != "bytes=":
+        return None, True
+    may_ignore = value[:6] != "bytes="
     out = []
-    for spec in value[len("bytes="):].split(","):
-        spec = spec.lstrip(" \t")
-        m = _re.fullmatch(r"(\d*)-(\d*)", spec)
+    elems = value[6:].split(",")
+    if elems[0][:1] in (" ", "\t") or elems[-1][-1:] in (" ", "\t"):
+        may_ignore = True
+    for spec in elems:
+        spec = spec.strip(" \t")
+        m = _re.fullmatch(r"([0-9]*)-([0-9]*)", spec)
         if not m or (m.group(1) == "" and m.group(2) == ""):
-            return None
+            return None, True
         a, b = m.group(1), m.group(2)
-        if (a and int(a) >= 2 ** 64) or (b and int(b) >= 2 ** 64):
-            return None      # unparseable numbers put the header outside what the implementation's grammar accepts
         if a == "":
             n = min(int(b), L)
             if n > 0:
@@ -853,7 +858,11 @@ def rfc_resolve(value, L):
         else:
             if int(a) < L and int(a) <= int(b):
                 out.append((int(a), min(int(b), L - 1) + 1))
-    return out
+    return out, may_ignore
+
+
+def rfc_resolve(value, L):
+    return rfc_resolve2(value, L)[0]
 
 
 def oracle_range(pid, sc, ob):
@@ -868,12 +877,14 @@ def oracle_range(pid, sc, ob):
     if not rng or any(k in ("if-range", "if-match", "if-none-match", "if-modified-since", "if-unmodified-since") for k, _ in sc.get("headers", [])):
         return None
     L = sc["len"]
-    want = rfc_resolve(rng[0], L)
+    want, may_ignore = rfc_resolve2(rng[0], L)
     st = ob["status"]
     cr = hd.get("content-range", [None])[0]
     if pid == "C13":
         return None if st in (200, 206, 304, 400, 405, 412, 413, 416) else "status %d" % st
     if pid == "C03":
+        if want is not None and may_ignore and st == 200 and cr is None:
+            return None
         if want is None:
             return None if st == 200 else "Range outside the grammar but status %d" % st
         if len(want) == 0:
@@ -944,6 +955,13 @@ def fam_range_headers():
         for tail in ("", ",100-109", ",oops", ",18446744073709551616-", ",-30", ",", ",150-", ",0-0"):
             k += 1
             out.append({"id": "rg%d" % k, "method": "GET", "headers": [("range", "bytes=" + pre + tail)], "len": L, "etag": '"x"', "lm": "1000000000.0", "scripts": [], "extra_polls": 0})
+    # OWS on both sides of the comma (RFC 7230 7), numbers beyond 64 bits (1*DIGIT has no length limit), leading zeros
+    for L in (10, 1000):
+        for v in ("0-1 ,5-6", "0-1\t,\t5-6", "0-1 , 5-6 ,-2", "2-3 ,4-", "0-99999999999999999999", "0-18446744073709551616", "5-340282366920938463463374607431768211456",
+                  "99999999999999999999-", "18446744073709551616-18446744073709551617", "-99999999999999999999", "-18446744073709551616", "00000000000000000000001-00000000000000000000002",
+                  "0-1,99999999999999999999-", "18446744073709551615-", "-18446744073709551615", "0-18446744073709551615", "1-2 ", " 1-2", "1-2 , ", "1-2, ,3-4", "1 -2", "1- 2"):
+            k += 1
+            out.append({"id": "rg%d" % k, "method": "GET", "headers": [("range", "bytes=" + v)], "len": L, "etag": '"x"', "lm": "1000000000.0", "scripts": [], "extra_polls": 0})
     # values that are not range requests at all (short, other units, other case, stray whitespace, empty list elements)
     for v in ("", "b", "byte", "bytes", "bytes=", "0-1", "-5", "none", "=", "bytes =0-1", "Bytes=0-1", "BYTES=0-1", "bytes=0-1,", "bytes=,0-1", "bytes=0-1,,2-3",
               "bytes=0-1 ", " bytes=0-1", "bytes=0 - 1", "bytes=-", "bytes=--1", "bytes=1--2", "bytes=a-b", "bytes=0x1-2", "bytes=+1-2", "bytes=1-2;q=1", "items=0-1", "bytes"):
@@ -1157,7 +1175,7 @@ def oracle_whole(pid, sc, ob):
     if pid == "C05" and "if-range" in dict(sc.get("headers", [])):
         if want is None and (st != 200 or cr is not None):
             return "If-Range does not match a strong ETag but the response is %d %r" % (st, cr)
-        if want is not None and len(want) == 1 and st != 206:
+        if want is not None and len(want) == 1 and st != 206 and not rfc_resolve2(dict(sc.get("headers", []))["range"], sc["len"])[1]:
             return "matching strong If-Range but status %d" % st
         return None
     if pid in ("C02", "C06") and method == "GET" and term == "E" and not sc.get("scripts") and st in (200, 206):
